@@ -3,6 +3,8 @@ From Coq Require Import List String.
 From SCC Require Import Base.Sexp Model.RunBase Model.RunPM Model.RunX86.
 From SCC Require Import Base.Sexp Model.RunBase Model.RunPM Model.RunStages.
 From SCC Require Import Model.RunA64.
+From SCC Require Import Model.RunFun2Core.
+From SCC Require Import Model.RunRT.
 Open Scope string_scope.
 
 Definition dispatch (cmd : string) (input : string) : string :=
@@ -11,5 +13,7 @@ Definition dispatch (cmd : string) (input : string) : string :=
   | "codegen-x86" => run_codegen_x86 input
   | "stages" => run_stages input
   | "codegen-a64" => run_codegen_a64 input
+  | "fun2core" => run_fun2core input
+  | "rt" => run_rt input
   | _ => "BAD - unknown command " ++ cmd ++ nl
   end.
